@@ -419,7 +419,7 @@ def write_archive(files, version=1, shift=3, hash_size=None, prefix=0, user_data
         hash_size = 4
         while hash_size < n + deleted_probes + 1:
             hash_size *= 2
-    assert hash_size & (hash_size - 1) == 0 and hash_size > n
+    assert hash_size & (hash_size - 1) == 0 and hash_size >= n + deleted_probes  # a table may be completely full
     header_size = 32 if version == 1 else 44
     body = bytearray()
     blocks = []
